@@ -137,8 +137,7 @@ Section Req.
       { intros s1 t1 H1. eapply WP_mono; [apply J12_mon | apply upload_c12; assumption]. }
       assert (Hgo : forall xs, WP (Seq (get_many lay c xs false) (upload lay c h v exp)) (TQ (IG (GX []))) s t).
       { intro xs. eapply WP_seq; [apply (get_many_12 [c]); auto; left; reflexivity | exact Hup]. }
-      destruct n as [[|v0]|]; try apply Hgo.
-      eapply WP_seq; [apply (get_target_12 [c]); auto; left; reflexivity | exact Hup].
+      destruct n as [[|v0]|]; apply Hgo.
     - (* RDeleteItem *) destruct Hwf as [Hc Hh].
       assert (Hcd : forall c0, In c0 [c] -> is_data c0 = true) by (intros c0 Hi; apply in1 in Hi; subst; apply coll_is_data; exact Hc).
       eapply WP_seq; [apply (get_target_12 [c]); auto; left; reflexivity|]. intros s1 t1 H1.
@@ -152,10 +151,8 @@ Section Req.
       assert (Hcd : forall c0, In c0 [c; c'] -> is_data c0 = true) by (intros c0 [<- | [<- | []]]; apply coll_is_data; assumption).
       cbn [seqs]. eapply WP_seq; [apply (get_target_12 [c; c']); auto; left; reflexivity|]. intros s1 t1 Hs1.
       eapply WP_seq with (M := J12 [c; c']).
-      { apply WP_read. intros [[|v0]|];
-          (destruct (path_eqb c c'); try exact Hs1;
-           first [apply (get_many_12 [c; c']); auto; right; left; reflexivity
-                 | apply (get_target_12 [c; c']); auto; right; left; reflexivity]). }
+      { apply WP_read. intros [[|v0]|]; try (apply (get_target_12 [c; c']); auto; right; left; reflexivity);
+          (destruct (path_eqb c c'); try exact Hs1; apply (get_many_12 [c; c']); auto; right; left; reflexivity). }
       intros s2 t2 Hs2. eapply WP_mono; [apply J12_mon | apply move_c12; assumption].
     - (* RPropPatch *) eapply WP_mono; [apply J12_mon | apply set_meta_c12; exact H].
     - (* RMkcol *) unfold create_collection, create_collection_gen. destruct H as [Hm _].
